@@ -465,16 +465,6 @@ theorem spec_run_eq (T : List Tx) : Spec.run T = ⟨allNodes T, allEdges T, allP
   | nil => rfl
   | cons tx T ih => simp [Spec.run, ih, allNodes, allEdges, allProps]
 
-theorem filterMap_id_map_some (xs : List Nat) : (xs.map some).filterMap id = xs := by
-  induction xs with
-  | nil => rfl
-  | cons x xs ih => simp [ih]
-
-theorem entries_mkLeaves : ∀ (X : List (List Nat)) (pids : List Nat),
-    (mkLeaves X pids).flatMap (fun l => l.entries.filterMap id) = X.flatten
-  | [], _ => rfl
-  | xs :: X, pids => by simp [mkLeaves, filterMap_id_map_some, entries_mkLeaves X]
-
 /-- what a handle shows on any page-file image whose segments / tree / runs make up `T` -/
 theorem content_of_store {T : List Tx} {m : Mem} {cs : List CTx} {p : PImg} (hst : StoreOK T cs p)
     (mexts : m.exts = allNodes T) (mruns : m.runs = logRuns (scan cs).ckpt cs)
